@@ -1907,3 +1907,83 @@ pub fn gen_c03(r: &mut Rng) -> (String, Sim) {
     arm_mutator(None);
     (format!("c03:{}", class), sim)
 }
+
+
+/// Long unobserved warm-up followed by a short observed tail: one host call
+/// repeated ~65530 times so that the 16-bit sequence id of the generator it
+/// drives wraps inside the observed tail.  Case type `wcase` (Port/WarmCases.v).
+pub fn gen_warm(index: u64, r: &mut Rng) -> (String, String) {
+    let kind = index % 4;
+    let mut icfg = rand_inst_cfg(r);
+    let mut cfg = rand_port_cfg(r);
+    cfg.acceptable = None;
+    cfg.master_only = false;
+    let (mut sim, rep, name) = match kind {
+        0 | 1 => {
+            icfg.slave_only = false;
+            let mut sim = Sim::new(icfg, vec![cfg]);
+            sim.step(Ev::AnnounceReceiptTimer(0));
+            if kind == 0 {
+                (sim, Ev::SyncTimer(0), "sync")
+            } else {
+                (sim, Ev::AnnounceTimer(0), "announce")
+            }
+        }
+        2 => {
+            let (sim, _w) = slave_setup(r, false);
+            (sim, Ev::DelayReqTimer(0), "delay_req")
+        }
+        _ => {
+            cfg.p2p = true;
+            let sim = Sim::new(icfg, vec![cfg]);
+            (sim, Ev::DelayReqTimer(0), "pdelay_req")
+        }
+    };
+    let pre_n = sim.events.len();
+    let count = 65520 + r.below(14) as usize;
+    let mut alive = true;
+    for _ in 0..count {
+        if !sim.step(rep.clone()) {
+            alive = false;
+            break;
+        }
+        for q in sim.pending.iter_mut() {
+            if q.len() > 4 {
+                q.drain(..q.len() - 2);
+            }
+        }
+    }
+    let warm_end = sim.events.len();
+    let warm_ok = alive;
+    let tail = 24 + r.below(8);
+    for k in 0..tail {
+        if !alive {
+            break;
+        }
+        if k % 3 == 2 && !sim.pending[0].is_empty() {
+            let last = sim.pending[0].len() - 1;
+            let ts = (r.below(1 << 40) as u128) * (1u128 << 32) + r.below(1 << 32) as u128;
+            alive = sim.step(Ev::SendTimestamp(0, last, ts));
+        } else {
+            alive = sim.step(rep.clone());
+        }
+    }
+    let rep_coq = if warm_end > pre_n { sim.events[pre_n].clone() } else { "EvTick 0".into() };
+    let trace = if !warm_ok {
+        "None".to_string()
+    } else {
+        format!("(Some [{}])", sim.results[warm_end..].join("; "))
+    };
+    let post = if !warm_ok { String::new() } else { sim.events[warm_end..].join("; ") };
+    let term = format!(
+        "(mkW {} [{}] ({}) {} [{}] {} {})",
+        sim.icfg.coq_setup(&sim.cfgs),
+        sim.events[..pre_n].join("; "),
+        rep_coq,
+        count,
+        post,
+        crate::coq_bool(!cfg!(debug_assertions)),
+        trace
+    );
+    (format!("warm:{}:{}", name, if sim.panicked { "panic" } else { "ok" }), term)
+}
